@@ -34,6 +34,9 @@ type TaintSpec struct {
 	// ElemMay: an element read from a list may hold a tainted object (default: elements of containers are
 	// clean, every store into one being a checked sink)
 	ElemMay func(ia *ssa.IndexAddr) bool
+	// CleanCall: argument i of this call is only used by the callee where it is clean (the callee is told,
+	// by another argument, whether it is)
+	CleanCall func(call ssa.CallInstruction, callee *ssa.Function, i int) bool
 }
 
 type originSet struct {
@@ -650,6 +653,9 @@ func (t *Taint) Findings() (found []TaintFinding, checked int) {
 					}
 					checked++
 					if !t.May(a) || (t.spec.CleanAt != nil && t.spec.CleanAt(a, in)) {
+						continue
+					}
+					if t.spec.CleanCall != nil && !cc.IsInvoke() && t.spec.CleanCall(call, callee, i) {
 						continue
 					}
 					if !t.origins(a, map[ssa.Value]bool{}).local {
